@@ -827,6 +827,12 @@ class Pass2(CompilePass):
 
             if decl.array_dims:
                 for dim_range in decl.array_dims:
+                    for bound in (dim_range.lbound, dim_range.ubound):
+                        if not bound.type.is_numeric:
+                            raise CompileError(
+                                EC.TYPE_MISMATCH,
+                                'Array bounds must be numeric',
+                                node=bound)
                     if not dim_range.is_const:
                         continue
                     lbound = dim_range.static_lbound
